@@ -15,3 +15,11 @@ Proof.
   intros t rva _. split; [|reflexivity].
   unfold L_exports_Exports_is_forwarded_ok. destruct (t_dva t <=? rva); reflexivity.
 Qed.
+
+(* what each binder of the generated definitions stands for in the source (third audit, F2): a function that starts
+   reading another field or index changes coq/gen/Leaf.v only in these lists *)
+From Coq Require Import List String.
+Import ListNotations.
+Lemma leaf_reads_exports :
+  L_exports_Exports_is_forwarded_args = ["self.datadir.VirtualAddress : u32"%string; "self.datadir.Size : u32"%string; "rva : u32"%string].
+Proof. repeat split; reflexivity. Qed.
